@@ -223,6 +223,11 @@ pub struct CLifetime {
     /// early); it is only installed when this lifetime begins
     #[serde(default)]
     pub prepared_ahead: bool,
+    /// before this lifetime begins, a complete lifetime of its own fakes the same function through
+    /// a DIFFERENT counted site (another test's fixture): (site, N); it gets exactly N matching
+    /// calls and goes quietly.  Sites a, b, e only (same function type).
+    #[serde(default)]
+    pub foreign_before: Option<(String, usize)>,
 }
 
 #[derive(Serialize, Deserialize, Clone, Debug, PartialEq)]
@@ -342,7 +347,18 @@ pub fn generate(profile: &str, seed: u64, index: u64) -> CountScenario {
         if prepared_ahead {
             classes.push("prepared-ahead".into());
         }
-        lifetimes.push(CLifetime { n, calls, exit_panic, second, prelude, refused_after, prepared_ahead });
+        lifetimes.push(CLifetime { n, calls, exit_panic, second, prelude, refused_after, prepared_ahead, foreign_before: None });
+    }
+    if matches!(site.as_str(), "a" | "b" | "e") {
+        // (own stream: the rest of the scenario does not depend on it)
+        let mut frng = Rng::new(simos::rng::scenario_seed(seed, &format!("N/count-foreign/{profile}"), index));
+        for lt in lifetimes.iter_mut() {
+            if frng.chance(1, 4) && !lt.prepared_ahead {
+                let others: Vec<&str> = ["a", "b", "e"].into_iter().filter(|x| *x != site).collect();
+                lt.foreign_before = Some(((*frng.pick(&others)).to_string(), frng.below(4) as usize));
+                classes.push("another-counted-site-on-the-same-function-between-lifetimes".into());
+            }
+        }
     }
     let in_unwind = rng.chance(1, 6);
     if in_unwind {
@@ -408,6 +424,7 @@ pub fn execute(sc: &CountScenario, sh: &Shared) -> Value {
     let mut preludes = 0u64;
     let mut refusals = 0u64;
     let mut prepared_total = 0u64;
+    let mut foreign_total = 0u64;
     struct InDrop<F: FnMut()>(Option<F>);
     impl<F: FnMut()> Drop for InDrop<F> {
         fn drop(&mut self) {
@@ -424,6 +441,49 @@ pub fn execute(sc: &CountScenario, sh: &Shared) -> Value {
     let mut prepared_n = 0u64;
     for (li, lt) in sc.lifetimes.iter().enumerate() {
         sh.note(PH_OTHER, li as u64, 0, 0);
+        if let Some((fsite, fnn)) = &lt.foreign_before {
+            let (fstat, fadd): (&AtomicUsize, u64) = match fsite.as_str() {
+                "a" => (&N_A, 7000),
+                "b" => (&N_B, 7100),
+                _ => (&N_E, 7300),
+            };
+            let keep = fstat.load(Ordering::SeqCst);
+            fstat.store(*fnn, Ordering::SeqCst);
+            let r = catch_unwind(AssertUnwindSafe(|| {
+                let mut inj = InjectorPP::new();
+                let pair = match fsite.as_str() {
+                    "a" => site_a(),
+                    "b" => site_b(),
+                    _ => site_e(),
+                };
+                if sc.zero_counter {
+                    if let CallCountVerifier::WithCount { counter, .. } = &pair.1 {
+                        counter.store(0, Ordering::SeqCst);
+                    }
+                }
+                inj.when_called(injectorpp::func!(fn (ct_add)(u32) -> u32)).will_execute(pair);
+                let mut bad = None;
+                for k in 0..*fnn {
+                    let got = black_box(ct_add as fn(u32) -> u32)(k as u32) as u64;
+                    if got != k as u64 + fadd {
+                        bad = Some((k, got));
+                    }
+                }
+                drop(inj);
+                bad
+            }));
+            foreign_total += 1;
+            calls_made += *fnn as u64;
+            match r {
+                Ok(None) => {}
+                Ok(Some((k, got))) => v("admitted-call-wrong-result", &["C06"], format!("before lifetime {li}: a lifetime of another counted site ({fsite}, N={fnn}) on the same function: call {k} returned {got}")),
+                Err(p) => v("call-within-budget-rejected", count_prop7, format!("before lifetime {li}: a complete lifetime of another counted site ({fsite}, N={fnn}, exactly {fnn} matching call(s)) on the same function panicked: {}", panic_msg(&p))),
+            }
+            fstat.store(keep, Ordering::SeqCst);
+            if ct_add(41) != 42 {
+                v("call-after-scope-exit-not-original", &["C02"], format!("before lifetime {li}: the function is not original after the other site's lifetime"));
+            }
+        }
         let nstat = match sc.site.as_str() {
             "a" => &N_A,
             "b" => &N_B,
@@ -712,6 +772,9 @@ pub fn execute(sc: &CountScenario, sh: &Shared) -> Value {
     }
     if prepared_total > 0 {
         probes.insert("fake_expression_evaluated_a_lifetime_ahead".into(), json!(prepared_total));
+    }
+    if foreign_total > 0 {
+        probes.insert("another_counted_site_on_the_same_function_between_lifetimes".into(), json!(foreign_total));
     }
     if refusals > 0 {
         faults.insert("refused_install_with_expectation_pending".into(), json!(refusals));
